@@ -406,6 +406,43 @@ class SymNP(types.ModuleType):
             raise OutsideBound('np.angle on symbolic data')
         return _np.angle(z, deg)
 
+    def arange(self, *args, **kw):
+        if not (active() and any(isinstance(a, PROXY) for a in args)):
+            return _np.arange(*args, **kw)
+        if len(args) == 1:
+            start, stop, step = 0, args[0], 1
+        elif len(args) == 2:
+            start, stop, step = args[0], args[1], 1
+        else:
+            start, stop, step = args[:3]
+        if all(isinstance(a, (int, _np.integer, SInt)) for a in
+               (start, stop, step)):
+            n = -((start - stop) // step)     # ceil((stop-start)/step)
+            n = int(n) if not isinstance(n, SInt) else cur().choose_int(
+                n.z, 'arange length')
+            n = max(n, 0)
+            out = _np.empty(n, dtype=object)
+            for i in range(n):
+                out[i] = start + i * step
+            return out
+        # float arange: numpy computes len = ceil((stop - start)/step) and
+        # fills start + i*delta with delta = (start + step) - start
+        start, stop, step = (_r(x) for x in (start, stop, step))
+        q = (stop - start) / step
+        if q.is_const():
+            n = _math.ceil(q.const())
+        else:
+            k = -sym_floor(-q)
+            at = k.p.monomial_single()
+            zi = cur().atoms[at[1][0][0]].data
+            n = cur().choose_int(zi if at[0] == 1 else -zi, 'arange length')
+        n = max(int(n), 0)
+        out = _np.empty(n, dtype=object)
+        delta = (start + step) - start
+        for i in range(n):
+            out[i] = start + i * delta
+        return out
+
     def isnan(self, a):
         if active() and is_sym(a):
             return elementwise(lambda e: False, a)
@@ -600,7 +637,19 @@ def sym_int(x=0, *a):
     return builtins.int(x, *a)
 
 
+def _real_cls(c):
+    if c is sym_float:
+        return float
+    if c is sym_int:
+        return int
+    return c
+
+
 def sym_isinstance(obj, cls):
+    if builtins.isinstance(cls, tuple):
+        cls = tuple(_real_cls(c) for c in cls)
+    else:
+        cls = _real_cls(cls)
     if isinstance(obj, SReal):
         if cls is float or (isinstance(cls, tuple) and float in cls):
             return True
